@@ -25,6 +25,11 @@ def cases(tier, seed):
                     out.append(dict(kind="grad", module="linear", dtype=dt, qtype=q, act=a, xshape=shape))
                 out.append(dict(kind="grad", module="conv", dtype=dt, qtype=q, act=a, xshape=[1, 1, 2, 3]))
             out.append(dict(kind="stale", module="linear", dtype=dt, qtype=q))
+            # which operands require a gradient (bias-only fine-tuning, frozen-feature extraction, ...)
+            for rg in ([False, True, True], [True, False, True], [True, True, False], [False, True, False]) if (tier == "thorough" or q in ("qint8", "qint4")) else ():
+                out.append(dict(kind="grad", module="linear", dtype=dt, qtype=q, act=acts[1] if rg[2] else None, xshape=[2, 3], rg=rg))
+                if tier == "thorough" or rg == [False, True, True]:
+                    out.append(dict(kind="grad", module="conv", dtype=dt, qtype=q, act=None, xshape=[1, 1, 2, 3], rg=rg))
             if tier == "quick" and q in ("qint8", "qfloat8_e4m3fn"):
                 out.append(dict(kind="grad", module="linear", dtype="float16", qtype=q, act=None, xshape=[2, 3]))
             if tier == "thorough":
@@ -42,8 +47,9 @@ def build(module, dt, qtype, act):
     return model
 
 
-def grads_pair(model, x, gO, read):
-    """returns dict name -> (quantized-module gradient, reference gradient) as comparable objects, plus problems"""
+def grads_pair(model, x, gO, read, rg=(True, True, True)):
+    """returns dict name -> (quantized-module gradient, reference gradient) as comparable objects, plus problems.
+    rg = which of (weight, bias, input) require a gradient"""
     import torch.nn.functional as F
 
     from optimum.quanto import quantize_activation
@@ -51,18 +57,21 @@ def grads_pair(model, x, gO, read):
 
     qm = model[0]
     probs = []
-    x = x.detach().requires_grad_(True)
+    qm.weight.requires_grad_(rg[0])
+    if qm.bias is not None:
+        qm.bias.requires_grad_(rg[1])
+    x = x.detach().requires_grad_(rg[2])
     y = model(x)
     yd = y.dequantize() if isinstance(y, QTensor) else y
     yd.backward(gO)
     got = dict(x=x.grad, weight=qm.weight.grad, bias=qm.bias.grad if qm.bias is not None else None)
     # reference: float functional on the dequantized quantized weight and the (de)quantized input
-    wdq = qm.qweight.dequantize().detach().requires_grad_(True)
-    b2 = qm.bias.detach().clone().requires_grad_(True) if qm.bias is not None else None
+    wdq = qm.qweight.dequantize().detach().requires_grad_(rg[0])
+    b2 = qm.bias.detach().clone().requires_grad_(rg[1]) if qm.bias is not None else None
     if qm.activation_qtype is not None:
-        x2 = quantize_activation(x.detach(), qm.activation_qtype, qm.input_scale).dequantize().detach().requires_grad_(True)
+        x2 = quantize_activation(x.detach(), qm.activation_qtype, qm.input_scale).dequantize().detach().requires_grad_(rg[2])
     else:
-        x2 = x.detach().clone().requires_grad_(True)
+        x2 = x.detach().clone().requires_grad_(rg[2])
     if isinstance(qm, torch.nn.Linear):
         yr = F.linear(x2, wdq, b2)
     else:
@@ -237,12 +246,12 @@ def run_case(case, res):
         with Session(res) as m:
             X, G = m.symbolic(x, "x"), m.symbolic(gO, "g")
             P = models.symbolic_params(m, model)
-            pairs, probs = grads_pair(model, x, gO, m.read)
+            pairs, probs = grads_pair(model, x, gO, m.read, tuple(case.get("rg", (True, True, True))))
             qw_ = model[0].qweight
             QD, QS = (m.read(qw_._data), m.read(qw_._scale)) if bits == 8 else (None, None)
         ctx = m.ctx
         res.side_ok("gradient-presence-and-shape", not probs, "; ".join(probs))
-        enc = dict(kind="grad", module=case["module"], dtype=case["dtype"], qtype=case["qtype"], act=case["act"], x=api.enc_tensor(x), g=api.enc_tensor(gO), w=api.enc_tensor(model[0].weight.data), b=api.enc_tensor(model[0].bias.data))
+        enc = dict(kind="grad", module=case["module"], dtype=case["dtype"], qtype=case["qtype"], act=case["act"], rg=list(case.get("rg", (True, True, True))), x=api.enc_tensor(x), g=api.enc_tensor(gO), w=api.enc_tensor(model[0].weight.data), b=api.enc_tensor(model[0].bias.data))
         if probs:
             res.side[-1]["replayed"] = True
             res.candidate("grad-presence", "side", enc, exact=True)
@@ -340,7 +349,7 @@ def replay(rec):
             fp = frozen_problems(model, x, g)
             key = ["C11/frozen-weight-receives-gradient"] if fp and all(p == "frozen weight received a gradient" for p in fp) else None
             return bool(fp), "; ".join(fp) or "frozen ok", key
-        pairs, probs = grads_pair(model, x, g, lambda t: t.detach().clone())
+        pairs, probs = grads_pair(model, x, g, lambda t: t.detach().clone(), tuple(inp.get("rg", (True, True, True))))
         mags = grad_mags(model, x, g)
         for k, (a, b) in pairs.items():
             tol = 1e-5 if dt == torch.float32 else 2e-2
